@@ -347,6 +347,18 @@ func runC12(c *Ctx) {
 	}
 	c.Floor("C12.3-observed-generation-assignments", nGen, 1)
 	c.Floor("C12.3-current-revision-assignments", nCur, 2)
+	// status.currentRevision is assigned from the current-revision parameter (above): that only says what it should if the
+	// parameter still holds what the caller chose -- neither revision parameter is given another value in the function
+	for _, p := range []*ast.Ident{r.CurRev, r.UpdRev} {
+		reassigned := false
+		for _, bd := range r.Fn.Bodies() {
+			if assignedIn(info, bd, info.ObjectOf(p)) {
+				reassigned = true
+			}
+		}
+		c.Check(!reassigned, "C12.3-revision-parameters-are-not-reassigned", r.FI.Obj.Name()+": "+p.Name, p.Pos(), "the parameter keeps the revision the caller chose",
+			"the parameter "+p.Name+" is given another value inside the reconcile function: status.currentRevision / the revision counters then follow a revision other than the one chosen for this pass (the current revision can move although not every pod was seen updated and ready)")
+	}
 	c.currentRevisionChoice()
 	c.statusWriteGuard()
 	c.statusRetryShape("C12.5")
